@@ -14,6 +14,7 @@ SEL0 = "args[1]"
 
 
 def register(w):
+    w.always_standin["C09"] = [(GM + "prepare", "string solvers rarely find counter-models over the strip/split axioms: generated gophermaps vs. the reference reading")]
     w.contracts.pop((GM + "prepare", "BuckGophermapHandler"), None)
     w.contract(GM + "prepare", selfclass=["BuckGophermapHandler"], globals=GROOT,
                requires=FS, modifies=["self.*", MROOT],
